@@ -35,6 +35,7 @@ fn main() {
         Some("replay") => driver::main_replay(&args[2..]),
         Some("shrink") => driver::main_shrink(&args[2..]),
         Some("isolated") => props::main_isolated(),
+        Some("fingerprint") => driver::main_fingerprint(&args[2..]),
         Some("probe-chain") => {
             // experiment: n make_refs then make_mut / teardown on a small stack
             std::panic::set_hook(Box::new(|_| {}));
